@@ -1,0 +1,63 @@
+//go:build verif
+
+package plugins
+
+// Add-only exports for the /verif correspondence harness (property C26). The wire converters live in an
+// internal package, which code outside of this module tree cannot import; these wrappers hand them out
+// unchanged. The proto messages travel as proto.Message so that the harness can inspect them through
+// protoreflect and push them through proto.Marshal / proto.Unmarshal itself.
+// Nothing in the repository calls these functions and the file is only compiled with the build tag `verif`.
+
+import (
+	"google.golang.org/protobuf/proto"
+
+	"github.com/cube2222/octosql/execution"
+	"github.com/cube2222/octosql/octosql"
+	"github.com/cube2222/octosql/physical"
+	"github.com/cube2222/octosql/plugins/internal/plugins"
+)
+
+func VerifValueToProto(v octosql.Value) proto.Message { return plugins.NativeValueToProto(v) }
+func VerifValueFromProto(m proto.Message) octosql.Value {
+	return m.(*plugins.Value).ToNativeValue()
+}
+
+func VerifTypeToProto(t octosql.Type) proto.Message { return plugins.NativeTypeToProto(t) }
+func VerifTypeFromProto(m proto.Message) octosql.Type {
+	return m.(*plugins.Type).ToNativeType()
+}
+
+func VerifSchemaToProto(s physical.Schema) proto.Message { return plugins.NativeSchemaToProto(s) }
+func VerifSchemaFromProto(m proto.Message) physical.Schema {
+	return m.(*plugins.Schema).ToNativeSchema()
+}
+
+func VerifRecordToProto(r execution.Record) proto.Message { return plugins.NativeRecordToProto(r) }
+func VerifRecordFromProto(m proto.Message) execution.Record {
+	return m.(*plugins.Record).ToNativeRecord()
+}
+
+func VerifMetadataMessageToProto(msg execution.MetadataMessage) proto.Message {
+	return plugins.NativeMetadataMessageToProto(msg)
+}
+func VerifMetadataMessageFromProto(m proto.Message) execution.MetadataMessage {
+	return m.(*plugins.MetadataMessage).ToNativeMetadataMessage()
+}
+
+func VerifPhysicalVariableContextToProto(c *physical.VariableContext) proto.Message {
+	return plugins.NativePhysicalVariableContextToProto(c)
+}
+func VerifPhysicalVariableContextFromProto(m proto.Message) *physical.VariableContext {
+	return m.(*plugins.PhysicalVariableContext).ToNativePhysicalVariableContext()
+}
+
+func VerifExecutionVariableContextToProto(c *execution.VariableContext) proto.Message {
+	return plugins.NativeExecutionVariableContextToProto(c)
+}
+func VerifExecutionVariableContextFromProto(m proto.Message) *execution.VariableContext {
+	return m.(*plugins.ExecutionVariableContext).ToNativeExecutionVariableContext()
+}
+
+func VerifRepopulatePhysicalExpressionFunctions(expr physical.Expression) (physical.Expression, bool) {
+	return plugins.RepopulatePhysicalExpressionFunctions(expr)
+}
